@@ -471,6 +471,8 @@ kll_sketch<T, C, A> kll_sketch<T, C, A>::deserialize(std::istream& is, const Ser
     min_k = read<uint16_t>(is);
     num_levels = read<uint8_t>(is);
     read<uint8_t>(is); // skip unused byte
+    if (!is.good()) throw std::runtime_error("error reading from std::istream");
+    if (num_levels < 1) throw std::invalid_argument("Possible corruption: number of levels must be at least 1");
   }
   vector_u32 levels(num_levels + 1, 0, allocator);
   const uint32_t capacity(kll_helper::compute_total_capacity(k, m, num_levels));
@@ -481,6 +483,9 @@ kll_sketch<T, C, A> kll_sketch<T, C, A>::deserialize(std::istream& is, const Ser
     read(is, levels.data(), sizeof(levels[0]) * num_levels);
   }
   levels[num_levels] = capacity;
+  for (uint8_t i = 0; i < num_levels; ++i) {
+    if (levels[i] > levels[i + 1]) throw std::invalid_argument("Possible corruption: level offsets must not decrease and must not exceed the capacity");
+  }
   optional<T> tmp; // space to deserialize min and max
   optional<T> min_item;
   optional<T> max_item;
@@ -555,6 +560,8 @@ kll_sketch<T, C, A> kll_sketch<T, C, A>::deserialize(const void* bytes, size_t s
     ptr += copy_from_mem(ptr, min_k);
     ptr += copy_from_mem(ptr, num_levels);
     ptr += sizeof(uint8_t); // skip unused byte
+    if (num_levels < 1) throw std::invalid_argument("Possible corruption: number of levels must be at least 1");
+    ensure_minimum_memory(size, (ptr - static_cast<const char*>(bytes)) + sizeof(uint32_t) * num_levels);
   }
   vector_u32 levels(num_levels + 1, 0, allocator);
   const uint32_t capacity(kll_helper::compute_total_capacity(k, m, num_levels));
@@ -565,6 +572,9 @@ kll_sketch<T, C, A> kll_sketch<T, C, A>::deserialize(const void* bytes, size_t s
     ptr += copy_from_mem(ptr, levels.data(), sizeof(levels[0]) * num_levels);
   }
   levels[num_levels] = capacity;
+  for (uint8_t i = 0; i < num_levels; ++i) {
+    if (levels[i] > levels[i + 1]) throw std::invalid_argument("Possible corruption: level offsets must not decrease and must not exceed the capacity");
+  }
   optional<T> tmp; // space to deserialize min and max
   optional<T> min_item;
   optional<T> max_item;
